@@ -13,7 +13,7 @@
    named results and names shared by the two levels of uncurry are all covered.
    FUEL + k is any sufficient amount of evaluator fuel. *)
 From Coq Require Import String Ascii List.
-From Verif Require Import Base Plumb.Model Plumb.Proofs Plumb.Shared.
+From Verif Require Import Base Plumb.Model Plumb.Proofs Plumb.Shared Plumb.HigherOrder.
 Import ListNotations.
 Open Scope string_scope.
 Open Scope list_scope.
@@ -79,6 +79,38 @@ Theorem C15_uncurry_curry_id :
   = ROk (prim_results res (length (s_results s)) [a1 :: rest]) [(0, a1 :: rest)].
 Proof. exact uncurry_curry_id. Qed.
 Print Assumptions C15_uncurry_curry_id.
+
+(* The original function returns a function [g] (any value: a primitive that would log its own
+   application, a closure, ...): Uncurry, Curry and Uncurry of Curry hand exactly [g] to the caller,
+   and the log holds the application(s) of the original function and nothing else: the function
+   that f returns is a result of f, not a further level of currying ([res_const g]: the original
+   function whose result is g). *)
+Theorem C15_uncurry_hands_function_result_through :
+  forall (g : val) (c : csig) (vo vi : list val) (k : nat),
+  c_variadic c = false ->
+  nodupb (filter bindable (names (c_outer c))) = true ->
+  src_ok (names (c_inner c)) (names (c_results c)) = true ->
+  length (c_outer c) = 1 ->
+  length (c_results c) = 1 ->
+  length vo = length (c_outer c) -> length vi = length (c_inner c) ->
+  run_uncurry (res_const g) hygienic (FUEL + k) c (prim_curried c) (vo ++ vi)
+  = ROk [g] [(0, vo); (1, vi)].
+Proof. exact uncurry_hands_function_result_through. Qed.
+Print Assumptions C15_uncurry_hands_function_result_through.
+
+Theorem C15_roundtrip_hands_function_result_through :
+  forall (g : val) (s : sig) (a1 : val) (rest : list val) (k : nat),
+  s_variadic s = false ->
+  src_ok (names (s_params s)) (names (s_results s)) = true ->
+  2 <= length (s_params s) ->
+  length (s_results s) = 1 ->
+  length (a1 :: rest) = length (s_params s) ->
+  run_roundtrip (res_const g) hygienic (FUEL + k) s (prim_flat s) (a1 :: rest)
+  = ROk [g] [(0, a1 :: rest)]
+  /\ run_curry (res_const g) hygienic (FUEL + k) s (prim_flat s) (a1 :: rest)
+  = ROk [g] [(0, a1 :: rest)].
+Proof. exact roundtrip_hands_function_result_through. Qed.
+Print Assumptions C15_roundtrip_hands_function_result_through.
 
 (* One derived function, several call sites: goderive identifies the function a call asks for by the
    types of its arguments only, so calls that pass functions of identical type and other parameter /
